@@ -550,6 +550,250 @@ Section Ports.
   Qed.
 End Ports.
 
+(* ================================================================== *)
+(* Staking addEscrow / reclaimEscrow / allow / withdraw and the vault   *)
+(* handlers create / authorizeAction / cancelAction.                    *)
+(* ================================================================== *)
+Section Ports2.
+  (* generic abstract parameters: the i-th key / check / computed record of a handler *)
+  Variable key : N -> tx -> N.
+  Variable chk : N -> list (option val) -> tx -> bool.                 (* a validation verdict *)
+  Variable calc : N -> list (option val) -> tx -> option val.          (* a computed record; None = the step fails *)
+  Variable newv : N -> list (option val) -> tx -> val.
+  Variable gcost : option val -> N.
+  Variable withdraw_hook : tx -> prog.        (* md.Publish(MessageAccountHook): the vault's invokeAccountHook *)
+  Variable execute_action : tx -> prog.       (* vault executeAction (suspend/resume/execute message/...) *)
+
+  Definition E2 (n : N) : res := Err (200 + n).
+
+  (* ---- staking/transactions.go addEscrow: validate, compute in memory, then three handle writes ---- *)
+  Definition h_add_escrow (m : mode) (x : tx) : hprog :=
+    match m with Check => HRet Ok | _ =>
+    HGetH (key 0 x) (fun pa =>                                   (* consensus parameters *)
+    HGas (gcost pa) (
+    if chk 1 [pa] x then HRet (E2 1) else                        (* reserved / delegation disabled: ErrForbidden *)
+    match m with Sim => HRet Ok | _ =>
+    if chk 2 [pa] x then HRet (E2 2) else                        (* below MinDelegationAmount *)
+    HGetH (key 1 x) (fun from =>
+    HGetH (key 2 x) (fun to =>
+    HGetH (key 3 x) (fun del =>
+    match calc 1 [pa; from; to; del] x, calc 2 [pa; from; to; del] x, calc 3 [pa; from; to; del] x with
+    | Some from', Some to', Some del' =>                         (* Deposit ok, balances above the minimum *)
+      HPutH (key 1 x) from' (HPutH (key 2 x) to' (HPutH (key 3 x) del' (HRet Ok)))
+    | _, _, _ => HRet (E2 3)
+    end)))
+    end))
+    end.
+
+  (* ---- reclaimEscrow: same shape, four handle writes (debonding delegation, delegation, accounts) ---- *)
+  Definition h_reclaim_escrow (m : mode) (x : tx) : hprog :=
+    if chk 10 [] x then HRet (E2 10) else                        (* zero shares: ErrInvalidArgument *)
+    match m with Check => HRet Ok | _ =>
+    HGetH (key 0 x) (fun pa =>
+    HGas (gcost pa) (
+    if chk 11 [pa] x then HRet (E2 11) else
+    match m with Sim => HRet Ok | _ =>
+    if chk 12 [pa] x then HRet (E2 12) else
+    HGetH (key 1 x) (fun to =>
+    HGetH (key 2 x) (fun from =>
+    HGetH (key 3 x) (fun del =>
+    HGetH (key 4 x) (fun epoch =>
+    match calc 11 [pa; to; from; del; epoch] x with              (* share arithmetic: any failure before the writes *)
+    | None => HRet (E2 13)
+    | Some deb =>
+      HPutH (key 5 x) deb (
+      HPutH (key 3 x) (newv 12 [pa; to; from; del] x) (
+      HPutH (key 1 x) (newv 13 [pa; to; from; del] x) (
+      HPutH (key 2 x) (newv 14 [pa; to; from; del] x) (HRet Ok))))
+    end))))
+    end))
+    end.
+
+  (* ---- allow ---- *)
+  Definition h_allow (m : mode) (x : tx) : hprog :=
+    match m with Check => HRet Ok | _ =>
+    HGetH (key 0 x) (fun pa =>
+    HGas (gcost pa) (
+    match m with Sim => HRet Ok | _ =>
+    if chk 20 [pa] x then HRet (E2 20) else                      (* allowances disabled, reserved, self *)
+    HGetH (key 1 x) (fun acct =>
+    HGetH (key 6 x) (fun supply =>
+    match calc 20 [pa; acct; supply] x with                      (* over supply / too many allowances *)
+    | None => HRet (E2 21)
+    | Some acct' => HPutH (key 1 x) acct' (HRet Ok)
+    end))
+    end))
+    end.
+
+  (* ---- withdraw (:700-830): the layer is opened BEFORE the authorization step, because a
+     withdraw hook (vault accounts) writes through ctx.State(); the two account writes go through
+     the received handle, right before Commit ---- *)
+  Definition h_withdraw (m : mode) (x : tx) : hprog :=
+    match m with Check => HRet Ok | _ =>
+    HGetH (key 0 x) (fun pa =>
+    HGas (gcost pa) (
+    match m with Sim => HRet Ok | _ =>
+    if chk 30 [pa] x then HRet (E2 30) else                      (* below MinTransferAmount *)
+    if chk 31 [pa] x then HRet (E2 31) else                      (* allowances disabled *)
+    if chk 32 [pa] x then HRet (E2 32) else                      (* reserved addresses *)
+    if chk 33 [pa] x then HRet (E2 33) else                      (* from = to *)
+    HOpen (                                                      (* ctx = ctx.NewTransaction(); defer ctx.Close() *)
+    HGetH (key 2 x) (fun from =>
+    let rest :=
+      HGetH (key 1 x) (fun to =>
+      match calc 30 [pa; from; to] x, calc 31 [pa; from; to] x with   (* Move + minimum balances *)
+      | Some to', Some from' => HPutH (key 1 x) to' (HPutH (key 2 x) from' (HCommit (HRet Ok)))
+      | _, _ => HRet (E2 36)
+      end) in
+    if chk 34 [from] x then                                      (* the source account has a withdraw hook *)
+      HSub (withdraw_hook x) (fun r => match r with Err e => HRet (E2 34) | Ok => rest end)
+    else if chk 35 [from] x then HRet (E2 35)                    (* no / insufficient allowance *)
+    else rest))
+    end))
+    end.
+
+  (* the seeded change C08-4: the hook runs BEFORE the layer is opened *)
+  Definition h_withdraw_c08_4 (x : tx) : hprog :=
+    HGetH (key 2 x) (fun from =>
+    HSub (withdraw_hook x) (fun r => match r with Err e => HRet (E2 34) | Ok =>
+    HOpen (
+    HGetH (key 1 x) (fun to =>
+    match calc 30 [from; to] x, calc 31 [from; to] x with
+    | Some to', Some from' => HPutH (key 1 x) to' (HPutH (key 2 x) from' (HCommit (HRet Ok)))
+    | _, _ => HRet (E2 36)
+    end)) end)).
+
+  (* ---- vault/transactions.go create (:13-65). NOTE `state := vaultState.NewMutableState(ctx.State())`
+     is built at the TOP (:14), before the layer: CreateVault writes below the layer, last. ---- *)
+  Definition h_vault_create (m : mode) (x : tx) : hprog :=
+    HGetH (key 0 x) (fun pa =>
+    if chk 40 [pa] x then HRet (E2 40) else                      (* create.Validate *)
+    match m with Check => HRet Ok | _ =>
+    HGas (gcost pa) (
+    match m with Sim => HRet Ok | _ =>
+    HOpen (
+    HGet (key 1 x) (fun caller =>                                (* stakeState built inside the layer *)
+    HPutH (key 7 x) (newv 40 [caller] x) (                       (* CreateVault: vault record + account hook *)
+    HPutH (key 8 x) (newv 41 [caller] x) (
+    HCommit (HRet Ok)))))
+    end)
+    end).
+
+  (* ---- authorizeAction (:67-191) ---- *)
+  Definition h_vault_authorize (m : mode) (x : tx) : hprog :=
+    HGetH (key 0 x) (fun pa =>
+    if chk 50 [pa] x then HRet (E2 50) else                      (* authAction.Validate *)
+    HGetH (key 7 x) (fun vlt =>
+    if chk 51 [vlt] x then HRet (E2 51) else                     (* no such vault *)
+    if chk 52 [vlt] x then HRet (E2 52) else                     (* ErrInvalidNonce *)
+    if chk 53 [vlt] x then HRet (E2 53) else                     (* not authorized: ErrForbidden *)
+    match m with Check => HRet Ok | _ =>
+    HGas (gcost pa) (
+    HOpen (
+    HGetH (key 9 x) (fun pend =>
+    if chk 54 [pend] x then HRet (E2 54) else                    (* a different action is pending at this nonce *)
+    let exec_part :=
+      if negb (chk 56 [vlt; pend] x) then HCommit (HRet Ok)      (* not enough authorizations yet *)
+      else HSub (execute_action x) (fun _ =>                     (* its (non state) error is only recorded in the event *)
+           HDelH (key 9 x) (HPutH (key 7 x) (newv 51 [vlt] x) (HCommit (HRet Ok)))) in
+    if chk 55 [pend] x then exec_part                            (* already contains the caller's authorization *)
+    else HPutH (key 9 x) (newv 50 [pend] x) exec_part)))
+    end)).
+
+  (* ---- cancelAction (:193-267) ---- *)
+  Definition h_vault_cancel (m : mode) (x : tx) : hprog :=
+    if chk 60 [] x then HRet (E2 60) else
+    HGetH (key 7 x) (fun vlt =>
+    if chk 61 [vlt] x then HRet (E2 61) else
+    if chk 62 [vlt] x then HRet (E2 62) else
+    if chk 63 [vlt] x then HRet (E2 63) else
+    match m with Check => HRet Ok | _ =>
+    HGetH (key 0 x) (fun pa =>
+    HGas (gcost pa) (
+    match m with Sim => HRet Ok | _ =>
+    HOpen (
+    HGetH (key 9 x) (fun pend =>
+    if chk 64 [vlt; pend] x then HRet (E2 64) else               (* :247 ErrForbidden *)
+    HDelH (key 9 x) (HPutH (key 7 x) (newv 60 [vlt] x) (HCommit (HRet Ok)))))
+    end))
+    end).
+
+  Ltac hs2 := repeat (first
+    [ apply hs_ret | apply hs_get; intro | apply hs_geth; intro | apply hs_gas | apply hs_open
+    | apply hs_commit | apply hs_put_open | apply hs_del_open | apply hs_sub_open; intro
+    | apply hs_puth | apply hs_delh | apply hs_put_closed | apply hs_del_closed
+    | apply hn_ret | apply hn_get; intro | apply hn_geth; intro | apply hn_put | apply hn_del
+    | apply hn_puth | apply hn_delh | apply hn_sub; intro | apply hn_commit
+    | match goal with
+      | |- hsafe _ (if ?b then _ else _) => destruct b
+      | |- hnofail (if ?b then _ else _) => destruct b
+      | |- hsafe _ (match ?m with Deliver => _ | Check => _ | Sim => _ end) => destruct m
+      | |- hsafe _ (match ?o with Some _ => _ | None => _ end) => destruct o
+      | |- hnofail (match ?o with Some _ => _ | None => _ end) => destruct o
+      | |- hsafe _ (match ?r with Ok => _ | Err _ => _ end) => destruct r
+      end ]).
+
+  Lemma add_escrow_safe m x : hsafe false (h_add_escrow m x).  Proof. unfold h_add_escrow. hs2. Qed.
+  Lemma reclaim_escrow_safe m x : hsafe false (h_reclaim_escrow m x).  Proof. unfold h_reclaim_escrow. hs2. Qed.
+  Lemma allow_safe m x : hsafe false (h_allow m x).  Proof. unfold h_allow. hs2. Qed.
+  Lemma withdraw_safe m x : hsafe false (h_withdraw m x).  Proof. unfold h_withdraw. hs2. Qed.
+  Lemma vault_create_safe m x : hsafe false (h_vault_create m x).  Proof. unfold h_vault_create. hs2. Qed.
+  Lemma vault_authorize_safe m x : hsafe false (h_vault_authorize m x).  Proof. unfold h_vault_authorize. hs2. Qed.
+  Lemma vault_cancel_safe m x : hsafe false (h_vault_cancel m x).  Proof. unfold h_vault_cancel. hs2. Qed.
+
+  Definition staking_vault_prog (m : mode) (x : tx) : option hprog :=
+    if tx_method x =? 10 then Some (h_add_escrow m x)
+    else if tx_method x =? 11 then Some (h_reclaim_escrow m x)
+    else if tx_method x =? 12 then Some (h_allow m x)
+    else if tx_method x =? 13 then Some (h_withdraw m x)
+    else if tx_method x =? 14 then Some (h_vault_create m x)
+    else if tx_method x =? 15 then Some (h_vault_authorize m x)
+    else if tx_method x =? 16 then Some (h_vault_cancel m x)
+    else None.
+  Definition staking_vault_exec (m : mode) (x : tx) : option handler :=
+    match staking_vault_prog m x with Some p => Some (hrun p false) | None => None end.
+
+  Lemma staking_vault_prog_safe m x p : staking_vault_prog m x = Some p -> hsafe false p.
+  Proof.
+    unfold staking_vault_prog.
+    destruct (tx_method x =? 10); [intros H; injection H as <-; apply add_escrow_safe|].
+    destruct (tx_method x =? 11); [intros H; injection H as <-; apply reclaim_escrow_safe|].
+    destruct (tx_method x =? 12); [intros H; injection H as <-; apply allow_safe|].
+    destruct (tx_method x =? 13); [intros H; injection H as <-; apply withdraw_safe|].
+    destruct (tx_method x =? 14); [intros H; injection H as <-; apply vault_create_safe|].
+    destruct (tx_method x =? 15); [intros H; injection H as <-; apply vault_authorize_safe|].
+    destruct (tx_method x =? 16); [intros H; injection H as <-; apply vault_cancel_safe|].
+    discriminate.
+  Qed.
+
+  Lemma failed_tx_effect_staking_vault P dec size s e g s' :
+    deliver P staking_vault_exec dec size s = (Err e, g, s') ->
+    s' = s \/ (exists x, dec = Some x /\ s' = post_auth_state s x).
+  Proof.
+    intros H.
+    destruct (failed_tx_effect_generic _ _ _ _ _ _ _ _ H) as [->|[x [g1 [t1 [fa1 [Hd [_ [_ ->]]]]]]]].
+    - intros x h _ Hx. unfold staking_vault_exec in Hx.
+      destruct (staking_vault_prog Deliver x) as [p|] eqn:Ep; [|discriminate].
+      replace h with (hrun p false) by congruence. apply hsafe_atomic. eapply staking_vault_prog_safe; exact Ep.
+    - left; reflexivity.
+    - right. exists x. auto.
+  Qed.
+End Ports2.
+
+(* ---------- the seeded change C08-4 (hook before the layer) is NOT atomic ---------- *)
+Definition c08_4_handler : hprog :=
+  h_withdraw_c08_4 (fun i _ => i) (fun _ _ _ => None)
+    (fun _ => Put 31 (VRaw 80) (Ret Ok)) (mkTx 20 0 0 0 13 false 0).
+
+Lemma c08_4_not_atomic : ~ atomic (hrun c08_4_handler false).
+Proof.
+  intros A.
+  pose (t := mkT [(2, VRaw 50)] [[]]).
+  assert (H : exists e g' t', hrun c08_4_handler false nop_gas t = (Err e, g', t') /\ t' <> t).
+  { eexists _, _, _. split; [vm_compute; reflexivity|]. vm_compute. discriminate. }
+  destruct H as [e [g' [t' [H Hne]]]]. apply Hne. eapply A; exact H.
+Qed.
+
 (* the statements with every abstract parameter spelled out (used by Props/C08.v) *)
 Lemma failed_tx_effect_registry_l :
   forall k_reg_params k_stake_params k_epoch k_features
